@@ -31,6 +31,27 @@ type wsCase struct {
 	Kind  string `json:"kind"`  // message | presence | iq
 	Size  int    `json:"size"`  // bytes of padding in the big element
 	Burst int    `json:"burst"` // number of small elements sent back-to-back after the big one
+	// Cut: the server's TCP connection is closed (no WebSocket close) right after the last frame, while the
+	// application is still in its post-connect hook: everything was completely received before the loss and
+	// waits in the transport when the receive loop starts
+	Cut bool `json:"cut"`
+}
+
+// wsListener remembers the connections it accepted, so that the server side can cut one.
+type wsListener struct {
+	net.Listener
+	mu    sync.Mutex
+	conns []net.Conn
+}
+
+func (l *wsListener) Accept() (net.Conn, error) {
+	c, err := l.Listener.Accept()
+	if err == nil {
+		l.mu.Lock()
+		l.conns = append(l.conns, c)
+		l.mu.Unlock()
+	}
+	return c, err
 }
 
 type wsResult struct {
@@ -71,11 +92,13 @@ func wsRun(c wsCase) wsResult {
 	for i := 0; i < c.Burst; i++ {
 		add([]string{"message", "presence", "iq"}[i%3], fmt.Sprintf("after%d", i), 3)
 	}
-	l, err := net.Listen("tcp", "127.0.0.1:0")
+	l0, err := net.Listen("tcp", "127.0.0.1:0")
 	if err != nil {
 		return wsResult{Key: "harness|listen", Detail: err.Error()}
 	}
+	l := &wsListener{Listener: l0}
 	defer l.Close()
+	cutDone := make(chan struct{})
 	var srvErr string
 	var mu sync.Mutex
 	hold := make(chan struct{})
@@ -128,6 +151,14 @@ func wsRun(c wsCase) wsResult {
 		for _, f := range frames {
 			write(f)
 		}
+		if c.Cut {
+			l.mu.Lock()
+			for _, nc := range l.conns {
+				nc.Close()
+			}
+			l.mu.Unlock()
+			close(cutDone)
+		}
 		<-hold
 		ws.Close(websocket.StatusNormalClosure, "")
 	})}
@@ -150,6 +181,16 @@ func wsRun(c wsCase) wsResult {
 	cl, err := NewClient(&cfg, router, func(error) {})
 	if err != nil {
 		return wsResult{Key: "harness|newclient", Detail: err.Error()}
+	}
+	if c.Cut {
+		cl.PostConnectHook = func() error {
+			select {
+			case <-cutDone:
+			case <-time.After(30 * time.Second):
+			}
+			time.Sleep(300 * time.Millisecond) // lets the transport's reader run into the end of the connection
+			return nil
+		}
 	}
 	if err := cl.Connect(); err != nil {
 		mu.Lock()
@@ -192,9 +233,20 @@ func wsScenarios() []hx.Scenario {
 	for _, kind := range []string{"message", "presence", "iq"} {
 		kind := kind
 		scs = append(scs, hx.Scenario{Name: "ws/kind=" + kind, Run: func(c *hx.Ctx) {
+			var cases []wsCase
 			for _, sz := range sizes {
 				for _, burst := range []int{1, 6} {
 					wc := wsCase{Kind: kind, Size: sz, Burst: burst}
+					if burst == 6 && (sz == 1 || sz == 8192) {
+						// the same case once more, with the connection lost before the receive loop starts
+						cases = append(cases, wsCase{Kind: kind, Size: sz, Burst: 40, Cut: true})
+					}
+					cases = append(cases, wc)
+				}
+			}
+			for _, wc := range cases {
+				{
+					sz, burst := wc.Size, wc.Burst
 					b, _ := json.Marshal(wc)
 					cmd := exec.Command(os.Args[0], "-test.run", "^TestVerifC05$", "-test.timeout", "120s")
 					cmd.Env = append(os.Environ(), "VERIF_WS_CASE="+string(b), "VERIF_OUT=", "VERIF_SHARD=")
@@ -207,7 +259,7 @@ func wsScenarios() []hx.Scenario {
 							found = json.Unmarshal([]byte(line[9:]), &res) == nil
 						}
 					}
-					in := fmt.Sprintf("websocket kind=%s size=%d burst=%d", kind, sz, burst)
+					in := fmt.Sprintf("websocket kind=%s size=%d burst=%d cut=%v", kind, sz, burst, wc.Cut)
 					c.Eval(in + fmt.Sprint(res.OK, res.Key))
 					szc := "small"
 					if sz >= 4096 {
